@@ -101,7 +101,8 @@ def compare(r, t, what='result vs target', deltas=True):
         # root cause: which (bookkeeping) field the maintainers' diff reacts to
         br = SD.semdump(r, bookkeeping=True)
         bt = SD.semdump(t, bookkeeping=True)
-        why = SD.first_diff_sig(br, bt)
+        fields = SD.all_diff_fields(br, bt)
+        why = '+'.join(fields) if fields else None
         if why is None:
             br = SD.semdump(r, bookkeeping=True, raw_expr=True)
             bt = SD.semdump(t, bookkeeping=True, raw_expr=True)
